@@ -580,7 +580,7 @@ impl<const N: usize> Ex<N> {
         let mut out = OpOut::new(cls::ITER | cls::CTOR);
         out.nontrivial = true;
         out.may_alloc = true;
-        out.argclass = (st.c % 3) as u64;
+        out.argclass = (st.c % 4) as u64;
         let exp: Vec<(u32, u32)> = self.models[x].iter().copied().collect();
         let bx = self.take_box(x);
         self.bufs[x] = Some(new_buf::<N>(0, false));
@@ -661,7 +661,20 @@ impl<const N: usize> Ex<N> {
                 let _ = self.settle(r, false, own);
                 break 'sess;
             }
-            match st.c % 3 {
+            match st.c % 4 {
+                3 => {
+                    // internal iteration whose closure destroys each element (for_each(drop)):
+                    // a planned destructor panic then fires inside the crate's fold
+                    let r = window(move || {
+                        it.for_each(|t| {
+                            let _h = crate::elem::HookScope::enter();
+                            crate::elem::user_code_tick(crate::elem::FaultKind::Closure);
+                            drop(t);
+                        })
+                    });
+                    self.allocs += crate::alloc::take_op_allocs();
+                    let _ = self.settle(r, false, own);
+                }
                 1 => {
                     // collect the rest into a new buffer: the original elements in order
                     let r = window(move || it.collect::<Buf<N>>());
